@@ -122,7 +122,7 @@ def _seed_jobs(prop, mod):
             continue
         if prop in e.get("detected_by", []):
             jobs.append((prop, mod.__name__, "seed:" + name, patch, True))
-        elif name.startswith("twin-"):
+        elif name.startswith("twin"):
             jobs.append((prop, mod.__name__, "seed:" + name, patch, False))
     return jobs
 
